@@ -168,12 +168,12 @@ func c17Gen(g *hx.Gen) {
 	}
 	// explicit definitions: upper-case and mixed-case letters for case-insensitive alphabets,
 	// both cases of one letter, a non-letter, the empty definition
-	for _, def := range []string{"ACGT", "AcGt", "acgt", "aCgT-", "ACGTacgt", "aA", "Zz9", "-", "", "ABCDEFGHIJKLMNOPQRSTUVWXYZ", "@[`{", "AZaz"} {
+	for _, def := range []string{"ACGT", "AcGt", "acgt", "aCgT-", "ACGTacgt", "aA", "Zz9", "-", "", "ABCDEFGHIJKLMNOPQRSTUVWXYZ", "@[`{", "AZaz", "ac\u0080gt", "ac\u0081gt", "\u00ff", "a\u0100"} {
 		for _, cased := range []string{"0", "1"} {
 			g.Casef("na %s %d %d %s", cased, '-', 'n', hx.Hex([]byte(def)))
 		}
 	}
-	for _, pr := range [][2]string{{"acgt", "tgca"}, {"ACGT", "TGCA"}, {"acgtACGT", "tgcaTGCA"}, {"\x7f\x01", "\x01\x7f"}, {"a", "a"}, {"ab", "bc"}, {"abc", "bca"}, {"a", "b"}, {"\x7f", "\x7f"}} {
+	for _, pr := range [][2]string{{"acgt", "tgca"}, {"ACGT", "TGCA"}, {"acgtACGT", "tgcaTGCA"}, {"\x7f\x01", "\x01\x7f"}, {"a", "a"}, {"ab", "bc"}, {"abc", "bca"}, {"a", "b"}, {"\x7f", "\x7f"}, {"\u0080", "\u0080"}, {"a\u0080", "\u0080a"}, {"a\u0081", "\u0081a"}} {
 		s0, _ := strconv.Unquote(`"` + pr[0] + `"`)
 		c0, _ := strconv.Unquote(`"` + pr[1] + `"`)
 		g.Casef("np %s %s", hx.Hex([]byte(s0)), hx.Hex([]byte(c0)))
@@ -223,6 +223,8 @@ func c17Gen(g *hx.Gen) {
 	_ = pool
 }
 
+var c17Runes = [][]byte{{0xc2, 0x80}, {0xc2, 0x80}, {0xc2, 0x81}, {0xc3, 0xa9}, {0xc3, 0xbf}, {0xc4, 0x80}, {0xdf, 0xbf}, {0xe2, 0x82, 0xac}}
+
 func randDef(g *hx.Gen) []byte {
 	n := g.Pick(0, 1, 2, 4, 5, 16, 26, 40)
 	perm := g.Perm(95)
@@ -240,7 +242,9 @@ func randDef(g *hx.Gen) []byte {
 			def[g.Intn(len(def))] = byte(128 + g.Intn(128))
 		}
 	case 2: // valid UTF-8 two byte rune
-		def = append(def, 0xc3, 0xa9)
+		// well-formed multi-byte runes, including the first code points above ASCII
+		// (U+0080, U+0081), U+00FF/U+0100 and the last two-byte rune
+		def = append(def, c17Runes[g.Intn(len(c17Runes))]...)
 	}
 	return def
 }
@@ -271,7 +275,17 @@ func randPairing(g *hx.Gen) (s, c []byte) {
 	case 1: // non-ASCII in s or c
 		if len(s) > 0 {
 			if g.Chance(0.5) {
-				s[g.Intn(len(s))] = byte(128 + g.Intn(128))
+				if g.Chance(0.5) {
+					// a well-formed non-ASCII rune in both strings (equal byte lengths, so that
+					// the length test passes and the rune test is reached)
+					r := c17Runes[g.Intn(len(c17Runes))]
+					i := g.Intn(len(s) + 1)
+					s = append(s[:i:i], append(append([]byte{}, r...), s[i:]...)...)
+					j := g.Intn(len(c) + 1)
+					c = append(c[:j:j], append(append([]byte{}, r...), c[j:]...)...)
+				} else {
+					s[g.Intn(len(s))] = byte(128 + g.Intn(128))
+				}
 			} else {
 				c[g.Intn(len(c))] = byte(128 + g.Intn(128))
 			}
